@@ -20,6 +20,7 @@ import (
 	stakingtypes "github.com/cosmos/cosmos-sdk/x/staking/types"
 
 	simapp "github.com/provenance-io/provenance/app"
+	"github.com/provenance-io/provenance/internal/antewrapper"
 	"github.com/provenance-io/provenance/x/exchange"
 	markertypes "github.com/provenance-io/provenance/x/marker/types"
 )
@@ -197,6 +198,11 @@ func TestC03(t *testing.T) {
 				return try(func() error {
 					return e.app.BankKeeper.SendCoinsFromAccountToModule(ctx, a, govtypes.ModuleName, sdk.NewCoins(sdk.NewCoin(d, amt)))
 				})
+			}},
+		{name: "fee deduction (ante DeductFees)", class: "RSpend", kinds: []int{kBase, kContVesting, kDelayedVesting},
+			run: func(e *c03Env, ctx sdk.Context, a, o sdk.AccAddress, d string, amt sdkmath.Int) error {
+				// the bank call ProvenanceDeductFeeDecorator and the fee sweep make for the fee payer
+				return try(func() error { return antewrapper.DeductFees(e.app.BankKeeper, ctx, a, sdk.NewCoins(sdk.NewCoin(d, amt))) })
 			}},
 		{name: "delegate", class: "RDelegate", kinds: []int{kBase, kContVesting, kDelayedVesting},
 			denom: func(e *c03Env) string { return e.bond },
